@@ -5,4 +5,5 @@ import "errors"
 var (
 	ErrMessageTruncated      = errors.New("message is truncated")
 	ErrMessageInvalidVersion = errors.New("message has invalid version")
+	ErrMessageTooLarge       = errors.New("message is too large")
 )
